@@ -23,6 +23,10 @@ namespace amgcl { namespace backend { template<> struct coarsening_is_supported<
 #define POLICY(N,NS,CL) struct N { template<class B> using type=NS::CL<B>; static const char *name() { return #CL; } };
 POLICY(AG,co,aggregation) POLICY(SA,co,smoothed_aggregation) POLICY(EM,co,smoothed_aggr_emin) POLICY(RS,co,ruge_stuben)
 POLICY(SP,rx,spai0) POLICY(DJ,rx,damped_jacobi) POLICY(GS,rx,gauss_seidel) POLICY(I0,rx,ilu0) POLICY(IK,rx,iluk) POLICY(IP,rx,ilup) POLICY(CH,rx,chebyshev) POLICY(S1,rx,spai1) POLICY(IT,rx,ilut)
+// Chebyshev smoother with the non-default option scale=true (the recurrence then runs on D^-1 A)
+template<class B> struct chebyshev_scaled : rx::chebyshev<B> { struct params : rx::chebyshev<B>::params { params() { this->scale=true; } };
+    template<class Mx> chebyshev_scaled(const Mx &A, const params &p, const typename B::params &bp) : rx::chebyshev<B>(A,p,bp) {} };
+struct CHS { template<class B> using type=chebyshev_scaled<B>; static const char *name() { return "chebyshev_scaled"; } };
 struct Cyc { unsigned ncycle=1, npre=1, npost=1, pre_cycles=1, coarse_enough=2, max_levels=1000; bool direct_coarse=true; std::string tag() const { return "c"+std::to_string(ncycle)+"p"+std::to_string(npre)+std::to_string(npost)+"x"+std::to_string(pre_cycles)+"ce"+std::to_string(coarse_enough)+(direct_coarse?"d":"s")+(max_levels<100?"ml"+std::to_string(max_levels):""); } };
 template<class AMG> static std::vector<scalar> apply_vec(const AMG &amg, const std::vector<scalar> &f) { NV F=hx::to_numa(f), X(f.size(),false); for (size_t i=0;i<f.size();++i) X[i]=hx::junk("x"+std::to_string(i)); amg.apply(F,X); return hx::to_vec(X); }
 template<class AMG> static void setp(typename AMG::params &p, const Cyc &c) { p.ncycle=c.ncycle; p.npre=c.npre; p.npost=c.npost; p.pre_cycles=c.pre_cycles; p.coarse_enough=c.coarse_enough; p.direct_coarse=c.direct_coarse; if (c.max_levels<100) p.max_levels=c.max_levels; }
@@ -110,8 +114,9 @@ int main(int argc, char **argv) {
     std::vector<Cyc> cycs; { Cyc c; cycs.push_back(c); c.ncycle=2; cycs.push_back(c); c=Cyc(); c.npre=2; c.npost=1; cycs.push_back(c); c=Cyc(); c.npre=1; c.npost=3; cycs.push_back(c); c=Cyc(); c.pre_cycles=2; cycs.push_back(c); c=Cyc(); c.direct_coarse=false; cycs.push_back(c); c=Cyc(); c.max_levels=2; c.coarse_enough=1; cycs.push_back(c); c=Cyc(); c.coarse_enough=4; c.ncycle=2; c.npre=2; c.npost=2; cycs.push_back(c); }
     for (auto &p : pats) for (size_t ci=0; ci<cycs.size(); ++ci) { const Cyc &c=cycs[ci]; bool symcyc = c.npre==c.npost; bool small=p.n<=9;
         op_case<SA,SP>(p,rng,c,symcyc,small); op_case<AG,DJ>(p,rng,c,symcyc,small); op_case<SA,GS>(p,rng,c,symcyc,small);
-        if (ci<2 || T) { op_case<RS,SP>(p,rng,c,symcyc,small); op_case<EM,DJ>(p,rng,c,false,false); op_case<SA,I0>(p,rng,c,symcyc,small); op_case<AG,IK>(p,rng,c,symcyc,small); op_case<SA,IP>(p,rng,c,symcyc,small); op_case<SA,CH>(p,rng,c,symcyc,small && p.n<=6); op_case<SA,IT>(p,rng,c,false,false); } }
+        if (ci<2 || T) { op_case<RS,SP>(p,rng,c,symcyc,small); op_case<EM,DJ>(p,rng,c,false,false); op_case<SA,I0>(p,rng,c,symcyc,small); op_case<AG,IK>(p,rng,c,symcyc,small); op_case<SA,IP>(p,rng,c,symcyc,small); op_case<SA,CH>(p,rng,c,symcyc,small && p.n<=6); op_case<AG,CHS>(p,rng,c,symcyc,small && p.n<=6); op_case<SA,IT>(p,rng,c,false,false); } }
     { std::vector<Pattern> bp{hx::grid_pattern(3,2),hx::band_pattern(8,1)}; if (T) { bp.push_back(hx::grid_pattern(4,3)); bp.push_back(hx::grid_pattern(4,2)); }
-      for (auto &p : bp) for (size_t ci=0; ci<(T?cycs.size():2); ++ci) { const Cyc &c=cycs[ci]; bool symcyc=c.npre==c.npost; block_op_case<SA,SP>(p,rng,c,symcyc); block_op_case<AG,DJ>(p,rng,c,symcyc); block_op_case<AG,GS>(p,rng,c,symcyc); if (T || ci==0) block_op_case<SA,I0>(p,rng,c,symcyc); } }
+      for (auto &p : bp) for (size_t ci=0; ci<(T?cycs.size():2); ++ci) { const Cyc &c=cycs[ci]; bool symcyc=c.npre==c.npost; block_op_case<SA,SP>(p,rng,c,symcyc); block_op_case<AG,DJ>(p,rng,c,symcyc); block_op_case<AG,GS>(p,rng,c,symcyc); if (T || ci==0) block_op_case<SA,I0>(p,rng,c,symcyc); }
+      for (auto &p : bp) { Cyc c; c.coarse_enough=3; block_op_case<SA,SP>(p,rng,c,true); c.coarse_enough=8; block_op_case<AG,DJ>(p,rng,c,true); }   /* direct coarse solves with 3 and more BLOCK rows (non-commuting pivot blocks in the skyline LU) */ }
     return hx::finish();
 }
